@@ -356,7 +356,7 @@ func judgeDiagnostics(ex *diagExpect, mode string, exit int, stderr string) *dia
 // diagFunctions: the functions of the analyses a mismatch of a category runs through. The list primitives and the type
 // accessors are used by every analysis.
 func diagFunctions(category string) []string {
-	prim := []string{"Type.GetType", "node.String", "node.GetID", "node.Init", "node.Front", "node.Next", "node.Len", "node.PushFront", "node.PopFront", "node.PushBack", "verifLast"}
+	prim := []string{"Tree.Compile", "Type.GetType", "node.String", "node.GetID", "node.Init", "node.Front", "node.Next", "node.Len", "node.PushFront", "node.PopFront", "node.PushBack", "verifLast"}
 	switch category {
 	case "unused", "undefined":
 		return append(prim, "Tree.countRules", "Tree.warn")
@@ -366,7 +366,7 @@ func diagFunctions(category string) []string {
 		return append(prim, "Tree.warn")
 	}
 	if category == "race" {
-		return []string{"frame", "Tree.countRules", "Tree.checkRecursion", "Tree.warn"}
+		return []string{"frame", "Tree.Compile", "Tree.countRules", "Tree.checkRecursion", "Tree.warn"}
 	}
 	return append(prim, "Tree.countRules", "Tree.checkRecursion", "Tree.warn", "node.CheckAlwaysSucceeds", "node.checkAlwaysSucceedsRecursion")
 }
